@@ -328,3 +328,46 @@ def mx6(cfg):
             res.find(f, bad[0].get('loc'), 'mutex_db::%s calls %s() on the mutex directly: an exception thrown by the wrapped operation (allocation failure, over-long key) would leave the mutex locked for ever' % (f.short, bad[0].get('name')), key='MX-6:%s' % f.short, config=cfg.name)
     res.floor('member functions', 20)
     return res
+
+
+def mx7(cfg):
+    """MX-7: the statistics getters of mutex_db forward to the getter of the same name"""
+    import re
+    res = RuleResult('MX-7', 'every statistics getter of mutex_db (memory use, node counts, growing / shrinking inode counts, key-prefix splits; per-class template forms included) returns the result of the wrapped tree\'s getter OF THE SAME NAME, with the same node-class template argument: "the three index classes report the same numbers" holds for mutex_db only through these forwarders')
+    n = 0
+    for f in cfg.functions:
+        if not f.blocks or not f.cls.startswith('unodb::mutex_db<') or not f.short.startswith('get_') or f.short == 'get_internal' or f.short == 'get':
+            continue
+        n += 1
+        res.functions.add(f.sig)
+        rets = [e for b, i, e in f.elements() if e.get('k') == 'return' and e.get('e') is not None]
+        calls = []
+        from ..wsum import const_inits
+        once = const_inits(f)
+        for r in rets:
+            f.walk(r['e'], lambda x: calls.append(x) if (x.get('k') == 'call' and (x.get('callee') or '').startswith('unodb::db<')) else None)
+            if not calls:
+                # `const auto n = db_.getter(); return n;`
+                loc_ = []
+                f.walk(r['e'], lambda x: loc_.append(x) if (x.get('k') == 'ref' and x.get('vk') == 'local' and x.get('did') in once) else None)
+                for l_ in loc_[:1]:
+                    f.walk(once[l_['did']], lambda x: calls.append(x) if (x.get('k') == 'call' and (x.get('callee') or '').startswith('unodb::db<')) else None)
+        ok = len(rets) == 1 and len(calls) == 1 and calls[0].get('name') == f.short
+        why = ''
+        if ok:
+            # same template argument (node class) on both sides
+            mine = re.findall(r'unodb::node_type::(\w+)', f.sig.split('(')[0])
+            theirs = re.findall(r'::%s<unodb::node_type::(\w+)' % re.escape(f.short), calls[0].get('callee') or '')
+            if mine[-1:] != theirs[-1:] and (mine or theirs) and theirs:
+                if not mine or mine[-1] != theirs[-1]:
+                    ok = bool(not mine)
+                    why = 'asks for node class %s' % theirs[-1] if not ok else ''
+        else:
+            why = 'returns %s' % (('db::' + str(calls[0].get('name'))) if calls else 'something else than one call of the wrapped getter')
+        res.ob(ok, {'rule': 'MX-7', 'function': sh(f.sig)[:110], 'site': fileline(f.loc), 'forwards_to': (calls[0].get('name') if calls else None), 'verdict': 'discharged' if ok else 'VIOLATION'})
+        if not ok:
+            res.find(f, f.loc, 'mutex_db::%s %s: the number reported for the mutex index is not the one the wrapped tree keeps under that name - statistics of the three index classes no longer agree for the same key set' % (f.short, why), key='MX-7:%s' % f.short, config=cfg.name)
+    res.count('mutex_db statistics getters', n)
+    if '-stats-' in cfg.name:
+        res.floor('mutex_db statistics getters', 8)
+    return res
